@@ -321,6 +321,41 @@ func r22RejectionIsFinal(c *core.Ctx) {
 			c.Check(R, construct, ret.Pos(), good, why, "InsertPoint returns "+why+" instead of InsertCoord's verdict: a rejected coordinate could be reported as accepted")
 		}
 	}
+	// (5) the error type produced on rejection is the type errors.As is asked for: As(err, *T) matches a T value, not a *T
+	var asTarget types.Type
+	for _, b := range sp.SSA.Blocks {
+		for _, in := range b.Instrs {
+			if call, ok := in.(*ssa.Call); ok && core.StaticCalleeID(call) == "errors.As" && len(call.Call.Args) == 2 {
+				if pt, ok := core.Unwrap(call.Call.Args[1]).Type().(*types.Pointer); ok {
+					asTarget = pt.Elem()
+				}
+			}
+		}
+	}
+	if asTarget != nil {
+		n := 0
+		for _, name := range []string{"pointindex.PointIndex.InsertCoord", "pointindex.PointIndex.InsertPoint", "pointindex.PointIndex.InsertPolygon"} {
+			f := c.P.Funcs[name]
+			if f == nil || f.SSA == nil {
+				continue
+			}
+			for _, b := range f.SSA.Blocks {
+				for _, in := range b.Instrs {
+					mi, ok := in.(*ssa.MakeInterface)
+					if !ok || !types.Identical(mi.Type(), types.Universe.Lookup("error").Type()) {
+						continue
+					}
+					n++
+					c.Check(R, fmt.Sprintf("rejection-error-type-matches-as-target/%s", name), mi.Pos(), types.Identical(mi.X.Type(), asTarget),
+						"rejection error has dynamic type "+mi.X.Type().String()+", the type SnapPolygon's errors.As asks for",
+						fmt.Sprintf("%s returns an error of dynamic type %s but SnapPolygon tests errors.As(err, *%s): the test never matches, so with IgnoreOutsideGrid the polygon panics instead of being skipped", name, mi.X.Type(), asTarget))
+				}
+			}
+		}
+		if n == 0 {
+			c.Bad(R, "rejection-error-type-matches-as-target/none", ip.Decl.Pos(), "no error construction found in InsertCoord/InsertPoint")
+		}
+	}
 	c.Floor(R, 4)
 }
 
